@@ -78,23 +78,37 @@ func mcWorlds(tier string) []explore.Case {
 	return out
 }
 
-// worldRoots: everything a query could touch.
-func worldRoots(w *world.World) []any {
+// callerRoots: everything the caller supplied (reachable from the path contexts, the decoder
+// context and the path reader's table).
+func callerRoots(w *world.World) []any {
 	var roots []any
 	for i := range w.Paths {
 		roots = append(roots, w.Ctx(i))
 	}
 	roots = append(roots, &w.DecCtx, w.Reader.Ctxs)
-	roots = append(roots, instr.Globals()...)
 	return roots
 }
 
+// worldRoots: everything a query could touch = caller-supplied data + the library's own
+// package-level variables (instrumented build only).
+func worldRoots(w *world.World) []any {
+	return append(callerRoots(w), instr.Globals()...)
+}
+
+// registerBarrier registers caller-owned memory (tag 1) and the library's package-level state
+// (tag 2) with the write barrier.
 func registerBarrier(w *world.World) int {
 	instr.BarrierReset()
 	n := snap.Walk(&snap.Visitor{
-		Region: func(p, size uintptr) { instr.BarrierAddRegion(p, size) },
-		Map:    func(id uintptr) { instr.BarrierAddMap(id) },
-	}, worldRoots(w)...)
+		Region: func(p, size uintptr) { instr.BarrierAddRegion(p, size, 1) },
+		Map:    func(id uintptr) { instr.BarrierAddMap(id, 1) },
+	}, callerRoots(w)...)
+	if g := instr.Globals(); len(g) > 0 {
+		n += snap.Walk(&snap.Visitor{
+			Region: func(p, size uintptr) { instr.BarrierAddRegion(p, size, 2) },
+			Map:    func(id uintptr) { instr.BarrierAddMap(id, 2) },
+		}, g...)
+	}
 	instr.BarrierSeal()
 	return n
 }
@@ -120,8 +134,9 @@ func errorQueries(cs *explore.Case) []run.Query {
 
 func c04World(cs *explore.Case, c *report.Collector, l *report.Local, perCall bool) {
 	w := world.Build(cs.Spec())
-	roots := worldRoots(w)
+	roots := callerRoots(w)
 	h0 := snap.Hash(roots...)
+	g0 := snap.Hash(instr.Globals()...)
 	states := map[uint64]bool{h0: true}
 	if instr.Available {
 		n := registerBarrier(w)
@@ -136,8 +151,15 @@ func c04World(cs *explore.Case, c *report.Collector, l *report.Local, perCall bo
 		if !instr.Available {
 			return
 		}
+		for id := range instr.BarrierHitsG() {
+			// not caller-supplied data: no C04 violation, but hidden state that histories could depend on
+			c.Inexhaustive("the library writes its own package-level state at " + siteClass(instr.Site(id)) + ": the 1-state closure argument does not cover it (C03 examines results directly)")
+		}
 		hits := instr.BarrierHits()
 		if len(hits) == 0 {
+			if len(instr.BarrierHitsG()) > 0 {
+				instr.BarrierClearHits()
+			}
 			return
 		}
 		for id := range hits {
@@ -153,7 +175,7 @@ func c04World(cs *explore.Case, c *report.Collector, l *report.Local, perCall bo
 		if h != h0 {
 			// bisect by deterministic replay on a fresh world, hashing after every call
 			fw := world.Build(cs.Spec())
-			fr := worldRoots(fw)
+			fr := callerRoots(fw)
 			fh := snap.Hash(fr...)
 			culprit := "(not reproduced on replay)"
 			for _, q := range batch {
@@ -167,6 +189,10 @@ func c04World(cs *explore.Case, c *report.Collector, l *report.Local, perCall bo
 				Detail: fmt.Sprintf("deep snapshot of the path context changed during %s queries; first mutating call: %s\nfile:\n%s", kind, culprit, cs.Text)})
 			states[h] = true
 			h0 = h
+		}
+		if g := snap.Hash(instr.Globals()...); g != g0 {
+			c.Inexhaustive(fmt.Sprintf("package-level state of the library changed during %s queries (not caller data; histories may depend on it)", kind))
+			g0 = g
 		}
 		batch = batch[:0]
 	}
